@@ -251,13 +251,16 @@ Definition orch_ignored (q : quirks) (e : env) (g : gpath) (rel : list string) :
     let v := parser_view (e_root e) g in repo_ignored (e_root_pats e) (fst v) (snd v)
   else repo_ignored (e_root_pats e) (unrooted rel) rel.
 
+(* rule-level ignore parser.  In the current source a rule built with get_ignore_parser() and no root gets a parser rooted at the
+   cwd (ignore_parser_default_root_is_cwd); under the shape of proposed_fixes/C09-rule-ignore-parser-root.diff it shares the
+   orchestrator's parser and the generated constant turns the quirk off *)
 Definition rule_ignored (q : quirks) (e : env) (g : gpath) (rel : list string) : bool :=
-  if q_rule_parser_cwd q then
+  if q_rule_parser_cwd q && ignore_parser_default_root_is_cwd then
     if list_eqb (e_cwd e) (e_root e) then
       let v := parser_view (e_root e) g in repo_ignored (e_root_pats e) (fst v) (snd v)
     else
       let v := parser_view (e_cwd e) g in repo_ignored (e_cwd_pats e) (fst v) (snd v)
-  else repo_ignored (e_root_pats e) (unrooted rel) rel.
+  else orch_ignored q e g rel.
 
 (* file-placement: PathResolver.get_relative_path *)
 Definition fp_path (q : quirks) (e : env) (g : gpath) (rel : list string) : string :=
